@@ -268,7 +268,7 @@ pub fn c04(cx: &Ctx) -> (Vec<Violation>, Cover) {
                 // scheduled for it
                 let d = cx.dels.iter().find(|d| d.key == Key::Pay(id));
                 if let Some(d) = d {
-                    if !d.exp.iter().any(|e| e.inst == r.inst) && !op_skipped(a, r.op) {
+                    if !d.exp.iter().any(|e| e.inst == r.inst && e.total > 0) && !op_skipped(a, r.op) {
                         v.push(Violation::new(
                             "C04",
                             "C04/event-visible-to-unscheduled-system",
